@@ -1197,7 +1197,10 @@ func main() {
 		"enc = generated field values (mostly well-formed, some outside the wire format) through the real SerializeTo " +
 		"(FixLengths on and off) and decoded again; dec = valid serializations, single-byte mutations (length/type/" +
 		"pointer fields preferred), every truncation of short packets, random bytes, through the real DecodeFromBytes " +
-		"and serialized again; non-trivial = accepted by the decoder (enc: serialized and decoded again) or a mutation " +
+		"and serialized again; sequences of 4-6 decodes (long/short alternating, valid/truncated/mutated/random) into ONE " +
+		"reused scion.Decoded / scion.Raw / epic.Path / onehop.Path / slayers.SCION (RecyclePaths off and on) / HBH / E2E / " +
+		"SCMP object, every step compared with the stateless model on that step's bytes; ExtLen boundaries 0,1,254,255 " +
+		"(1024-byte extension) in both directions incl. truncations; non-trivial =accepted by the decoder (enc: serialized and decoded again) or a mutation " +
 		"of a length field"
 	rng := vgen.NewRand(run.Seed)
 	rn := &runner{run: run, maxHops: 8, maxBytes: 40}
